@@ -9,7 +9,11 @@ func c11Search(nlp bool) {
 	if verifBool("boosts") {
 		o.ContextBoosts = map[string]float64{"aa": 2}
 	}
-	verifFreeze("SearchUniversal", db)
+	if nlp && verifBool("actionQuery") {
+		q = []string{"find aa", "list bb"}[verifIntRange("aq", 0, 1)] // queries with an action word
+	}
+	// the options' boost table belongs to the caller and is shared between searches
+	verifFreeze("SearchUniversal", db, o.ContextBoosts)
 	_ = db.SearchUniversal(q, o)
 	_ = db.GetSuggestions(q, 3)
 	verifUnguard()
